@@ -1256,7 +1256,7 @@ func (r Reference) ObjValue() Object {
 	if log.LogDebug() {
 		log.Debugf("Reference Value() %s -> %v", r.Name, r.RefEnv.store[r.Name])
 	}
-	v := r.RefEnv.store[r.Name]
+	v, _ := r.RefEnv.local(r.Name) // (the variable may currently live in a register)
 	if v == r {
 		panic("Self reference")
 	}
